@@ -133,6 +133,34 @@ def distributeOrig (right : Bool) (rnd : F → Int) (mean : Int) (m : F) (w us :
 
 end distribute
 
+
+/-! ## §2b  aggregation of the per-dataset generators (`MultiDatasetSignalGenerator`, after the count vector) -/
+
+/-- a per-dataset signal generator: requested number ↦ (reported number, events per dataset key);
+`none` = it raises (e.g. for a negative request) -/
+abbrev DsGen := Int → Option (Nat × List (Nat × Nat))
+
+/-- `if k not in d: d[k] = v else: d[k].append(v)` on event numbers -/
+def mergeKey : List (Nat × Nat) → Nat × Nat → List (Nat × Nat)
+  | [], kv => [kv]
+  | (k, v) :: rest, kv => if k = kv.1 then (k, v + kv.2) :: rest else (k, v) :: mergeKey rest kv
+
+/-- `for (n_events, gen) in zip(n_events_arr, sig_generator_list)`: stops at the shorter sequence -/
+def aggLoop : Nat → List (Nat × Nat) → List Int → List DsGen → Option (Nat × List (Nat × Nat))
+  | n, d, c :: cs, g :: gs =>
+    match g c with
+    | none => none
+    | some (k, ev) => aggLoop (n + k) (ev.foldl mergeKey d) cs gs
+  | n, d, _, _ => some (n, d)
+
+/-- the code before the fix: a generator list shorter than the dataset list loses events silently -/
+def aggregateOrig (counts : List Int) (gens : List DsGen) : Option (Nat × List (Nat × Nat)) :=
+  aggLoop 0 [] counts gens
+
+/-- the code after the fix: `ValueError` when the two lengths differ -/
+def aggregate (counts : List Int) (gens : List DsGen) : Option (Nat × List (Nat × Nat)) :=
+  if gens.length ≠ counts.length then none else aggLoop 0 [] counts gens
+
 /-- round half to even on ℚ (`np.round`) -/
 def rintQ (q : Rat) : Int :=
   let f := q.floor
@@ -233,7 +261,41 @@ def normalise (ws : List F) : F × List F :=
 
 end table
 
+
+/-! ### validity ranges (`_get_invalid_events_mask`) -/
+
+section validity
+variable {F : Type} [LT F] [DecidableLT F]
+
+/-- `mask |= (v < lo) | (v > hi)` over the configured fields of one event; entries are (value, lo, hi) -/
+def invalidMask (rs : List (F × F × F)) : Bool :=
+  rs.any (fun r => decide (r.1 < r.2.1) || decide (r.2.2 < r.1))
+
+/-- validity bit of candidate row `r`: the ranges of the row's dataset, evaluated on the (relocated) field
+values of the row; `vr` holds (dataset, lo, hi, value per row) for every configured (dataset, field) -/
+def validOf (cands : List Cand) (vr : List (Nat × F × F × List F)) (r : Nat) : Bool :=
+  match cands[r]? with
+  | none => false
+  | some c =>
+    !invalidMask ((vr.filter (fun e => e.1 == c.ds)).filterMap
+      (fun e => (e.2.2.2[r]?).map (fun v => (v, e.2.1, e.2.2.1))))
+
+end validity
+
 /-! ## §4  drawing, validity, redraw loop -/
+
+/-- `buf[start : start + k] = rows` (`set_selection(np.indices((k,))[0] + start, rows)`);
+`none` = shape mismatch / IndexError -/
+def setSel {α : Type} (buf : List (Option α)) (start k : Nat) (rows : List α) : Option (List (Option α)) :=
+  if rows.length = k ∧ start + k ≤ buf.length then
+    some (buf.take start ++ rows.map some ++ buf.drop (start + k))
+  else none
+
+/-- every slot of the `np.empty` buffer has been written (`none` = an uninitialised row would be returned) -/
+def unwrapAll {α : Type} : List (Option α) → Option (List α)
+  | [] => some []
+  | none :: _ => none
+  | some x :: rest => (unwrapAll rest).map (x :: ·)
 
 section generate
 variable {F : Type} [Add F] [Div F] [LE F] [DecidableLE F] [LT F] [DecidableLT F] [OfNat F 0]
@@ -320,6 +382,50 @@ def generate (right : Bool) (cands : List Cand) (cdf : List F) (valid : Nat → 
     | none => none
     | some mrows =>
       match genDss right cands cdf valid mrows (uniq (mrows.map (·.2.ds))) (us.drop n) with
+      | none => none
+      | some (out, rest) => some (n, out, rest)
+
+
+/-! ### the same generation as coded: one pre-allocated output buffer per dataset, `fill_start_idx` -/
+
+/-- the group loop of one dataset as coded: output buffer, `fill_start_idx` -/
+def genShgsBuf (right : Bool) (cands : List Cand) (cdf : List F) (valid : Nat → Bool) (ds : Nat)
+    (mrows : List (Nat × Cand)) : List Nat → List (Option (Nat × Cand)) → Nat → List F →
+    Option (List (Option (Nat × Cand)) × Nat × List F)
+  | [], buf, start, us => some (buf, start, us)
+  | g :: gs, buf, start, us =>
+    let rows := mrows.filter (fun rc => rc.2.ds == ds && rc.2.shg == g)
+    match genGroup right cands cdf valid ds g rows us with
+    | none => none
+    | some (out, us') =>
+      match setSel buf start rows.length out with
+      | none => none
+      | some buf' => genShgsBuf right cands cdf valid ds mrows gs buf' (start + rows.length) us'
+
+def genDssBuf (right : Bool) (cands : List Cand) (cdf : List F) (valid : Nat → Bool)
+    (mrows : List (Nat × Cand)) : List Nat → List F → Option (List (Nat × List (Nat × Cand)) × List F)
+  | [], us => some ([], us)
+  | d :: ds, us =>
+    let shgs := uniq ((mrows.filter (fun rc => rc.2.ds == d)).map (·.2.shg))
+    let buf0 : List (Option (Nat × Cand)) := List.replicate (mrows.filter (fun rc => rc.2.ds == d)).length none
+    match genShgsBuf right cands cdf valid d mrows shgs buf0 0 us with
+    | none => none
+    | some (buf, _, us') =>
+      match unwrapAll buf with
+      | none => none
+      | some out =>
+        match genDssBuf right cands cdf valid mrows ds us' with
+        | none => none
+        | some (rest, us'') => some ((d, out) :: rest, us'')
+
+def generateBuf (right : Bool) (cands : List Cand) (cdf : List F) (valid : Nat → Bool) (n : Nat) (us : List F) :
+    Option (Nat × List (Nat × List (Nat × Cand)) × List F) :=
+  if us.length < n then none
+  else
+    match drawRows right cands cdf (us.take n) with
+    | none => none
+    | some mrows =>
+      match genDssBuf right cands cdf valid mrows (uniq (mrows.map (·.2.ds))) (us.drop n) with
       | none => none
       | some (out, rest) => some (n, out, rest)
 
